@@ -60,7 +60,7 @@ def gen_doc(rng, hostile_values=0.15, comments=False):
         if dtype == "int":
             return str(rng.choice([0, 0, rng.randrange(-50, 50)]))
         if dtype == "float":
-            return repr(rng.choice([1.5, -2.25, 0.1, 3.0, 1e-5, 0.0]))
+            return repr(rng.choice([1.5, -2.25, 0.1, 3.0, 1e-5, 0.0, 0.30000000000000004, 3.141592653589793, 1.0 / 3, 1e22]))
         if dtype == "boolean":
             return rng.choice(["true", "False", "1", "0"])
         if rng.random() < hostile_values:
@@ -314,15 +314,30 @@ def run_case(case, ctx, sdir):
         if os.path.exists(outp):
             os.remove(outp)
         if sio is None:
+            # the target is named the way users do: absolute, relative with a directory part, or a bare name in the
+            # current directory (with and without the .xml ending)
+            how = ["absolute", "bare-relative", "relative-with-dir", "bare-no-extension"][core_int(case) % 4]
+            rec.count("target-path-form", how)
+            old_cwd = os.getcwd()
             try:
-                VersionConverter(src).write_to_file(outp, fmt)
+                os.chdir(sdir)
+                target = {"absolute": outp, "bare-relative": os.path.basename(outp),
+                          "relative-with-dir": os.path.join(".", os.path.basename(outp)),
+                          "bare-no-extension": os.path.basename(outp)[:-4]}[how]
+                VersionConverter(src).write_to_file(target, fmt)
                 with io.open(outp, encoding="utf-8") as f:
                     written = f.read()
                 body = written.split("?>", 1)[1].lstrip("\n") if written.startswith("<?xml") else written
                 if _norm_ids(body) != _norm_ids(out):
                     rec.violation("file/differs-from-convert", fmt, case)
             except Exception as exc:
-                rec.violation("file/raised-%s" % type(exc).__name__, repr(exc)[:200], case)
+                rec.violation("file/raised-%s:%s" % (type(exc).__name__, how), repr(exc)[:200], case)
+            finally:
+                os.chdir(old_cwd)
+
+
+def core_int(case):
+    return int(core.h([case.get("doc"), case.get("fmt")]), 16) if isinstance(core.h([1]), str) else 0
 
 
 import re
